@@ -440,7 +440,7 @@ def do_check(prop, sim, known, args):
             isolated_pass = True
             print("note: %d failing run(s) did not fail on their own in a fresh process; re-running in isolation (one forked child per run)" % irreproducible)
             sys.stdout.flush()
-            limit = min(total_runs, max(200, max(v[0] for v in violations) + 1), 6000)
+            limit = min(total_runs, 8000)
             iso_chunks = [(prop, seed, tier, s, min(s + 25, limit), chunk_timeout, False, True) for s in range(0, limit, 25)]
             iso = []
             with ProcessPoolExecutor(max_workers=workers, mp_context=ctx) as pool:
